@@ -87,6 +87,27 @@ func next() I {
 	return callCounter
 }
 
+// seq traces the moment it is evaluated: operands of calls are evaluated in source order.
+func seq(k I) I {
+	callCounter++
+	emit("sq", itoa(int(k))+":"+itoa(int(callCounter)))
+	return k
+}
+
+func ao(xs ...I) string {
+	s := ""
+	for _, x := range xs {
+		s += itoa(int(x)) + ","
+	}
+	return s
+}
+
+func aoEmit(xs ...I) { emit("aod", ao(xs...)) }
+
+type aoT struct{ n I }
+
+func (a aoT) m(xs ...I) string { return ao(append(xs, a.n)...) }
+
 func classOf(e interface{}) string {
 	if re, ok := e.(runtime.Error); ok {
 		m := re.Error()
